@@ -251,7 +251,7 @@ impl Session {
             // serialization and hash through the C API vs the Rust API
             let b2 = last_error();
             let sr = ffi::wirefilter_serialize_filter_to_json(ast);
-            let fj = unsafe { std::slice::from_raw_parts(sr.json.ptr as *const u8, sr.json.len) };
+            let fj = crate::ffi_bytes(sr.json.ptr as *const u8, sr.json.len);
             let eq = fj == rj.as_bytes();
             let e2 = self.ev("serialize_filter", b2, Self::status(&sr.status), "ok", eq, None, json!({}));
             events.push(e2);
@@ -318,7 +318,7 @@ impl Session {
     pub fn ctx_json(&mut self, events: &mut Vec<Value>) -> String {
         let before = last_error();
         let sr = ffi::wirefilter_serialize_execution_context_to_json(&mut self.fctx);
-        let fj = unsafe { std::slice::from_raw_parts(sr.json.ptr as *const u8, sr.json.len) }.to_vec();
+        let fj = crate::ffi_bytes(sr.json.ptr as *const u8, sr.json.len).to_vec();
         let rj = serde_json::to_string(&self.rctx).unwrap();
         let e = self.ev("serialize_ctx", before, Self::status(&sr.status), "ok", fj == rj.as_bytes(), None, json!({}));
         events.push(e);
@@ -333,7 +333,7 @@ impl Session {
             let mut buf: Vec<u8> = text.as_bytes().to_vec();
             let ok = ffi::wirefilter_deserialize_json_to_execution_context(&mut self.fctx, buf.as_ptr(), buf.len());
             buf.iter_mut().for_each(|b| *b = b'#');
-            drop(buf);
+            std::mem::forget(buf); // overwritten, not freed (see serde_ctx::feed)
             ok
         };
         use serde::de::DeserializeSeed;
